@@ -157,6 +157,7 @@ func (ex *Exec) eval(e ast.Expr) Val {
 		c := ex.fresh("clo", SInt)
 		ex.assume(Lt(I(0), c))
 		ex.closures[c.String()] = &closure{lit: e}
+		ex.checkClosureContracts(e)
 		return Val{c, typ}
 	case *ast.TypeAssertExpr:
 		v, ok := ex.typeAssert(e)
@@ -1097,4 +1098,63 @@ func (ex *Exec) havocTyped(t types.Type, hint string) Val {
 		ex.assume(f)
 	}
 	return Val{v, t}
+}
+
+// checkClosureContracts: when a function literal with a "closure" contract is created, its body is executed once with
+// arbitrary parameters (in a copy of the current state, effects discarded) and the contract's postconditions are asserted.
+func (ex *Exec) checkClosureContracts(lit *ast.FuncLit) {
+	if ex.fc == nil || len(ex.fc.Closures) == 0 || len(ex.code) > 1 || ex.quiet > 0 || ex.st.dead {
+		return
+	}
+	txt := ""
+	for _, cc := range ex.fc.Closures {
+		if txt == "" {
+			txt = noSpace(ex.nodeText(lit))
+		}
+		if !strings.HasPrefix(txt, noSpace(cc.Text)) {
+			continue
+		}
+		if ex.closuresUsed == nil {
+			ex.closuresUsed = map[*ClosureContract]bool{}
+		}
+		ex.closuresUsed[cc] = true
+		sig, _ := ex.typeOf(lit).(*types.Signature)
+		if sig == nil {
+			continue
+		}
+		saved := ex.st
+		ex.st = saved.clone()
+		var args []Val
+		for i := 0; i < sig.Params().Len(); i++ {
+			args = append(args, ex.havocTyped(sig.Params().At(i).Type(), "cp."+sig.Params().At(i).Name()))
+		}
+		savedHook := ex.exitHook
+		ex.exitHook = nil
+		outs := ex.inlineBody("closure@"+ex.posString(lit.Pos()), sig, lit.Type, lit.Body, nil, nil, args, ex.pkg, ex.curContract(), false)
+		ex.exitHook = savedHook
+		if !ex.st.dead {
+			sc := ex.specHere(lit.Pos())
+			for i, n := range cc.Results {
+				if i < len(outs) && n != "" && n != "_" {
+					sc.vars[n] = outs[i]
+				}
+			}
+			for i, c := range cc.Ensures {
+				kind, lab := "F", c.Label
+				if lab == "" {
+					lab = fmt.Sprint(i + 1)
+				}
+				if j := strings.Index(lab, ":"); j == 1 {
+					kind, lab = lab[:1], lab[2:]
+				}
+				g, ok := ex.specTry(sc, c)
+				if !ok {
+					lab += ":not-evaluable"
+				}
+				ex.curPos = lit.Pos()
+				ex.assert(kind, "closure["+lab+"]", g)
+			}
+		}
+		ex.st = saved
+	}
 }
